@@ -55,3 +55,11 @@ Fixpoint observe (P : params) (s : rstate) (os : list op) : list obs :=
   | o :: os' => let '(s', b) := ostep P s o in b :: observe P s' os'
   end.
 Definition final (P : params) (s : rstate) (os : list op) : rstate := foldl (λ s o, (ostep P s o).1) s os.
+
+(** GetHash = md5 of json.Marshal(d): encoding/json writes every map with its keys sorted, i.e. as a function of the
+    map's CONTENT, never of the order of insertions or of Go's map iteration order.  [canon] is that pre-image: scalars,
+    the kill list in its order, every map as its canonical association list. *)
+Definition canon (d : db) :=
+  (d_tick d, d_deadline d, d_failed d,
+   (map_to_list (d_shards d), map_to_list (d_kv d), map_to_list (d_view d), d_kill d),
+   (map_to_list (d_hosts d), map_to_list (d_info d), map_to_list (d_requests d), map_to_list (d_outgoing d))).
